@@ -168,7 +168,8 @@ open Revm.Spec.JournalAbs in
 /-- SLOAD -/
 theorem host_sload_agrees (he : HostEnv) (w w' : World) (a k : Nat) (resp : HostResp)
     (h : answer he w (.sload a k) = .ok (resp, w')) :
-    resp.word = ((absAcct w.db w.js a).slot k).present ∧ resp.isCold = !((absAcct w.db w.js a).slot k).warm :=
+    resp.word = ((absAcct w.db w.js a).slot k).present ∧ resp.isCold = !((absAcct w.db w.js a).slot k).warm ∧
+    resp.ok = true :=
   Proofs.EvmHost.sload_agrees he w w' a k resp h
 
 open Revm.Spec.JournalAbs in
@@ -178,6 +179,36 @@ theorem host_sstore_agrees (he : HostEnv) (w w' : World) (a k v : Nat) (resp : H
     resp.original = ((absAcct w.db w.js a).slot k).orig ∧ resp.present = ((absAcct w.db w.js a).slot k).present ∧
     resp.new = v ∧ resp.isCold = !((absAcct w.db w.js a).slot k).warm :=
   Proofs.EvmHost.sstore_agrees he w w' a k v resp h
+
+open Revm.Spec.JournalAbs in
+/-- SLOAD end to end on the journal-backed machine: the instruction asks for the slot of the executing account, and
+continues with the abstract state's present value on the stack, charged `sloadCost` of the fork and of the slot's
+warmth (EIP-2929: 2100 cold / 100 warm; 800 / 200 / 50 before Berlin); `step_sload_agrees` + `host_sload_agrees` -/
+theorem sload_end_to_end (he : HostEnv) (w w' : World) (s : IState) (key : Nat) (rest : List Nat) (resp : HostResp)
+    (hcode : s.code[s.pc]? = some 0x54) (hwf : WF s) (hstack : s.stack.reverse = key :: rest)
+    (hans : answer he w (.sload s.target key) = .ok (resp, w')) :
+    ∃ k, step s = .host (.sload s.target key) k ∧
+      k resp =
+        (let slot := (absAcct w.db w.js s.target).slot key
+         let cost := GasCalc.sloadCost s.spec (!slot.warm)
+         if s.gas.remaining < cost then Done.halt .OutOfGas [] (adv s)
+         else .next { charge (adv s) cost with stack := (slot.present :: rest).reverse }) := by
+  obtain ⟨hv, hc, hok⟩ := Proofs.EvmHost.sload_agrees he w w' s.target key resp hans
+  refine ⟨sloadAfter (adv s) rest, ?_, ?_⟩
+  · rw [Proofs.EvmStep.step_sload s hcode hwf.gas]
+    unfold sloadRule
+    rw [hstack]
+  · unfold sloadAfter
+    simp only [hok, Bool.not_true, Bool.false_eq_true, if_false, hv, hc]
+    rfl
+
+/-- SLOAD: one host question, then `sloadAfter` -/
+theorem step_sload_agrees (s : IState) (hcode : s.code[s.pc]? = some 0x54) (hwf : WF s) :
+    step s = sloadRule s := Proofs.EvmStep.step_sload s hcode hwf.gas
+
+/-- TLOAD (EIP-1153) -/
+theorem step_tload_agrees (s : IState) (hcode : s.code[s.pc]? = some 0x5c) (hwf : WF s) :
+    step s = tloadRule s := Proofs.EvmStep.step_tload s hcode hwf.gas
 
 /-- TLOAD -/
 theorem host_tload_agrees (he : HostEnv) (w w' : World) (a k : Nat) (resp : HostResp)
